@@ -226,17 +226,180 @@ static AG genLinks(int n, vh::Rng &r) {
 
 struct Geo { double cx, cy, w, h; };
 
+static HolaOpts mkOpts(bool aca, bool nearAlign, unsigned reps, double kink, double scope, int aspect) {
+    HolaOpts opts;
+    opts.useACAforLinks = aca;
+    opts.do_near_align = nearAlign;
+    opts.align_reps = reps;
+    opts.nearAlignScalar_kinkWidth = kink;
+    opts.nearAlignScalar_scope = scope;
+    opts.preferredAspectRatio = aspect == 0 ? AspectRatioClass::NONE : aspect == 1 ? AspectRatioClass::PORTRAIT : AspectRatioClass::LANDSCAPE;
+    return opts;
+}
+
+// one case: print the input, build the Graph through the public API, call doHOLA, dump the result
+static void runOne(long k, const std::string &tag, const AG &g, const std::vector<Geo> &geo, const HolaOpts &opts,
+                   int aspect, int posMode, int sizeMode, const std::vector<char> &flip) {
+    int n = g.n;
+    vh::beginCase(k, tag.c_str());
+    printf("opts %d %d %u %s %s %d %s\n", (int) opts.useACAforLinks, (int) opts.do_near_align, opts.align_reps,
+           vh::hx(opts.nearAlignScalar_kinkWidth).c_str(), vh::hx(opts.nearAlignScalar_scope).c_str(), aspect,
+           vh::hx(opts.nodePaddingScalar).c_str());
+    printf("pos %d\nsize %d\n", posMode, sizeMode);
+    Graph G;
+    std::vector<Node_SP> nodes(n);
+    for (int i = 0; i < n; ++i) {
+        nodes[i] = Node::allocate(geo[i].cx, geo[i].cy, geo[i].w, geo[i].h);
+        G.addNode(nodes[i]);
+    }
+    for (size_t j = 0; j < g.es.size(); ++j) {
+        bool f = j < flip.size() && flip[j];
+        G.addEdge(nodes[f ? g.es[j].second : g.es[j].first], nodes[f ? g.es[j].first : g.es[j].second]);
+    }
+    for (auto &p : G.getNodeLookup()) {
+        Avoid::Point c = p.second->getCentre(); dimensions d = p.second->getDimensions();
+        printf("n0 %u %s %s %s %s\n", p.first, vh::hx(c.x).c_str(), vh::hx(c.y).c_str(), vh::hx(d.first).c_str(), vh::hx(d.second).c_str());
+    }
+    for (auto &p : G.getEdgeLookup()) {
+        auto ids = p.second->getEndIds();
+        printf("e0 %u %u %u\n", p.first, ids.first, ids.second);
+    }
+    printf("pre %d %d\n", (int) connected(g), (int) simple(g));
+    fflush(stdout);
+    // ---- the call
+    bool threw = false;
+    try {
+        doHOLA(G, opts);
+    } catch (std::exception &ex) {
+        std::string w = ex.what(); for (char &ch : w) if (ch == '\n' || ch == '\r') ch = ' ';
+        printf("threw %s\n", w.c_str()); threw = true;
+    }
+    printf("done\n");
+    if (!threw) {
+        printf("iel %s\n", vh::hx(G.getIEL()).c_str());
+        printf("extrabdry %s\n", vh::hx(G.getSepMatrix().getExtraBdryGap()).c_str());
+        for (auto &p : G.getNodeLookup()) {
+            Avoid::Point c = p.second->getCentre(); dimensions d = p.second->getDimensions();
+            printf("n1 %u %s %s %s %s\n", p.first, vh::hx(c.x).c_str(), vh::hx(c.y).c_str(), vh::hx(d.first).c_str(), vh::hx(d.second).c_str());
+        }
+        for (auto &p : G.getEdgeLookup()) {
+            auto ids = p.second->getEndIds();
+            std::vector<Avoid::Point> route = p.second->getRoute();
+            printf("e1 %u %u %u %zu", p.first, ids.first, ids.second, route.size());
+            for (auto &q : route) printf(" %s %s", vh::hx(q.x).c_str(), vh::hx(q.y).c_str());
+            printf("\n");
+        }
+        for (auto &row : sepLookup(G.getSepMatrix())) for (auto &cell : row.second) {
+            const SepPair &sp = *cell.second;
+            printf("sep %u %u %d %d %d %d %s %s\n", sp.src, sp.tgt, (int) sp.xgt, (int) sp.ygt, (int) sp.xst, (int) sp.yst,
+                   vh::hx(sp.xgap).c_str(), vh::hx(sp.ygap).c_str());
+        }
+    }
+    vh::endCase();
+}
+
+// ---- fixed witnesses of finding candidates (own tags, so that they can be registered as known findings by tag)
+struct Fixed { const char *tag; int n; std::vector<std::pair<int, int>> es; std::vector<Geo> geo; bool aca; bool nearAlign;
+               unsigned reps = 2; double kink = 0.25; double scope = 1.0; int aspect = 0; };
+
+static std::vector<Fixed> fixedCases() {
+    std::vector<Fixed> v;
+    // F1: whole graph is a tree; node 0 has 3 children whose subtrees are pairwise non-isomorphic (leaf, path, cherry):
+    // Tree::symmetricLayout places no central child, Tree::addConstraints still aligns node 0 with its middle child.
+    {
+        Fixed f; f.tag = "finding-tree-centre-align"; f.n = 7;
+        f.es = {{0, 1}, {0, 2}, {0, 3}, {2, 4}, {3, 5}, {3, 6}};
+        for (int i = 0; i < 7; ++i) f.geo.push_back({40.0 * i, 30.0 * (i % 3), 30, 30});
+        f.aca = true; f.nearAlign = true; f.aspect = 0;
+        v.push_back(f);
+    }
+    // F2: pad/unpad in floating point: sizes that are not dyadic multiples of the padding come back changed in the last bits
+    {
+        Fixed f; f.tag = "finding-size-ulp"; f.n = 4;
+        f.es = {{0, 1}, {1, 2}, {2, 3}, {3, 0}};
+        double w[4] = {30.1, 41.7, 25.3, 33.9};
+        for (int i = 0; i < 4; ++i) f.geo.push_back({100.0 * (i % 2), 100.0 * (i / 2), w[i], 20.3 + i});
+        f.aca = true; f.nearAlign = true; f.aspect = 0;
+        v.push_back(f);
+    }
+    // F3: an alignment (EQ CENTRE gap 0) between adjacent core nodes survives in the returned SepMatrix although the final
+    // route of that edge bends and the nodes are not aligned (core constraints are copied into G after P has changed the layout)
+    {
+        Fixed f; f.tag = "finding-stale-align"; f.n = 11;
+        f.es = {{0, 1}, {0, 2}, {0, 3}, {0, 4}, {5, 0}, {0, 6}, {2, 3}, {4, 3}, {6, 5}, {4, 7}, {3, 8}, {9, 8}, {10, 8}};
+        f.geo = {{852, 516, 36.0, 40.0}, {362, 221, 26.0, 22.0}, {796, 267, 44.0, 57.0}, {944, 89, 29.0, 50.0}, {575, 498, 51.0, 25.0}, {86, 495, 21.0, 57.0}, {958, 135, 20.0, 29.0}, {681, 5, 58.0, 45.0}, {208, 252, 42.0, 26.0}, {842, 32, 54.0, 23.0}, {243, 384, 53.0, 55.0}};
+        f.aca = true; f.nearAlign = false; f.reps = 1; f.kink = 0.25; f.scope = 1.0; f.aspect = 0;
+        v.push_back(f);
+    }
+    // F4: a returned BDRY >= constraint holds for the bare boundary gap but not with the extra boundary gap IEL/2 that
+    // doHOLA itself sets on the returned SepMatrix (hola.cpp: G.getSepMatrix().setExtraBdryGap(IEL/2.0))
+    {
+        Fixed f; f.tag = "finding-bdry-extra-gap"; f.n = 18;
+        f.es = {{1, 0}, {1, 2}, {3, 2}, {4, 0}, {2, 0}, {4, 2}, {3, 0}, {3, 4}, {5, 4}, {6, 5}, {6, 7}, {4, 8}, {9, 8}, {6, 10}, {11, 7}, {12, 3}, {12, 13}, {5, 14}, {11, 15}, {16, 3}, {4, 17}};
+        f.geo = {{410, 682, 29.0, 22.0}, {352, 599, 54.0, 37.0}, {279, 213, 91.0, 15.0}, {643, 609, 54.0, 14.0}, {37, 345, 112.0, 12.0}, {112, 692, 108.0, 39.0}, {231, 718, 108.0, 21.0}, {126, 220, 29.0, 11.0}, {142, 316, 28.0, 21.0}, {105, 38, 117.0, 16.0}, {380, 195, 30.0, 12.0}, {476, 539, 28.0, 38.0}, {200, 387, 44.0, 31.0}, {605, 183, 105.0, 21.0}, {572, 476, 13.0, 14.0}, {20, 629, 15.0, 11.0}, {531, 89, 110.0, 22.0}, {79, 489, 12.0, 32.0}};
+        f.aca = true; f.nearAlign = false; f.reps = 1; f.kink = 0.25; f.scope = 2.0; f.aspect = 1;
+        v.push_back(f);
+    }
+    // F5: a route leg whose end points differ by 1-2 ulp in the other coordinate (aligned nodes whose centres differ in the last bit)
+    {
+        Fixed f; f.tag = "finding-hairline-diagonal"; f.n = 13;
+        f.es = {{0, 1}, {2, 1}, {2, 3}, {4, 3}, {4, 5}, {6, 5}, {8, 7}, {9, 8}, {9, 10}, {11, 10}, {12, 11}, {0, 12}, {12, 8}, {3, 6}};
+        f.geo = {{510, 110, 95.0, 41.0}, {219, 497, 83.0, 41.0}, {242, 449, 34.0, 25.0}, {179, 259, 36.0, 22.0}, {194, 69, 77.0, 12.0}, {339, 6, 68.0, 12.0}, {503, 207, 79.0, 10.0}, {71, 110, 120.0, 22.0}, {243, 136, 74.0, 15.0}, {425, 487, 91.0, 37.0}, {201, 34, 24.0, 20.0}, {155, 363, 111.0, 26.0}, {94, 179, 19.0, 30.0}};
+        f.aca = false; f.nearAlign = false; f.reps = 1; f.kink = 0.5; f.scope = 2.0; f.aspect = 1;
+        v.push_back(f);
+    }
+    // F6: useACAforLinks=false: the route built from aesthetic bend nodes (Chain::addAestheticBendsToEdges + Graph::buildRoutes)
+    // has a grossly diagonal leg that passes through another node
+    {
+        Fixed f; f.tag = "finding-chain-diagonal"; f.n = 17;
+        f.es = {{0, 1}, {2, 0}, {0, 3}, {4, 0}, {5, 0}, {6, 0}, {0, 7}, {0, 8}, {9, 0}, {4, 5}, {8, 7}, {1, 9}, {6, 10}, {1, 11}, {12, 4}, {13, 7}, {10, 14}, {9, 15}, {13, 16}};
+        f.geo = {{6, 6, 112.0, 34.0}, {104, -2, 112.0, 20.0}, {194, 1, 87.0, 26.0}, {294, 7, 39.0, 36.0}, {394, 7, 57.0, 14.0}, {-4, 77, 36.0, 36.0}, {103, 76, 15.0, 21.0}, {208, 72, 54.0, 18.0}, {300, 72, 120.0, 20.0}, {401, 82, 115.0, 17.0}, {6, 165, 26.0, 26.0}, {107, 161, 48.0, 30.0}, {201, 158, 102.0, 12.0}, {302, 158, 86.0, 40.0}, {407, 167, 95.0, 39.0}, {3, 235, 46.0, 36.0}, {107, 243, 103.0, 22.0}};
+        f.aca = false; f.nearAlign = false; f.reps = 1; f.kink = 0.5; f.scope = 2.0; f.aspect = 0;
+        v.push_back(f);
+    }
+    return v;
+}
+
 int main(int argc, char **argv) {
     vh::Args a = vh::parseArgs(argc, argv);
     bool thorough = a.tier == "thorough";
-    long ncases = (thorough ? 400 : 72) * a.scale;
+    // ---- experiment / minimisation mode: --mode <file> with lines `opts aca nearalign reps kink scope aspect`,
+    //      `node cx cy w h`, `edge a b`; emitted as case 0 with tag "file"
+    if (!a.mode.empty()) {
+        FILE *f = fopen(a.mode.c_str(), "r");
+        if (!f) { fprintf(stderr, "cannot open %s\n", a.mode.c_str()); return 2; }
+        AG g; std::vector<Geo> geo; HolaOpts opts; int aspect = 2;
+        char kw[32];
+        while (fscanf(f, "%31s", kw) == 1) {
+            std::string s = kw;
+            if (s == "opts") { int ac, na, as; unsigned rp; double kk, sc; if (fscanf(f, "%d %d %u %lf %lf %d", &ac, &na, &rp, &kk, &sc, &as) != 6) return 2;
+                opts = mkOpts(ac, na, rp, kk, sc, as); aspect = as; }
+            else if (s == "node") { Geo q; if (fscanf(f, "%lf %lf %lf %lf", &q.cx, &q.cy, &q.w, &q.h) != 4) return 2; geo.push_back(q); g.addNode(); }
+            else if (s == "edge") { int x, y; if (fscanf(f, "%d %d", &x, &y) != 2) return 2; g.es.push_back({x, y}); }
+        }
+        fclose(f);
+        runOne(0, "file", g, geo, opts, aspect, 9, 9, {});
+        return 0;
+    }
+    long k = 0;
+    // ---- fixed finding witnesses first
+    for (const Fixed &fx : fixedCases()) {
+        if (a.want(k)) {
+            AG g; for (int i = 0; i < fx.n; ++i) g.addNode();
+            for (auto &e : fx.es) g.addEdge(e.first, e.second);
+            runOne(k, fx.tag, g, fx.geo, mkOpts(fx.aca, fx.nearAlign, fx.reps, fx.kink, fx.scope, fx.aspect), fx.aspect, 9, 9, {});
+        }
+        ++k;
+    }
+    long nfixed = k;
+    long ncases = (thorough ? 400 : 160) * a.scale;
     if (a.n >= 0) ncases = a.n;
     const int NCLS = 8;
     const char *classes[NCLS] = {"tree", "tree-sym", "cycle", "core-trees", "hub", "links", "core-trees", "hub"};
-    for (long k = 0; k < ncases; ++k) {
+    for (; k < nfixed + ncases; ++k) {
         if (!a.want(k)) continue;
         vh::Rng r = vh::caseRng(a.seed, k);
-        int cls = (int) (k % NCLS);
+        int cls = (int) ((k - nfixed) % NCLS);
         int nmax = thorough ? 60 : 25;
         int n = (int) r.range(5, nmax);
         if (thorough && r.coin(1, 2)) n = (int) r.range(5, 30);   // keep the average cost bounded
@@ -275,73 +438,17 @@ int main(int argc, char **argv) {
             else { geo[i].cx = (double) r.range(0, 60); geo[i].cy = (double) r.range(0, 60); }   // heavily overlapping start
         }
         // ---- options
-        HolaOpts opts;
-        opts.useACAforLinks = r.coin();
-        opts.do_near_align = r.coin(2, 3);
-        opts.align_reps = (unsigned) r.range(1, 3);
-        opts.nearAlignScalar_kinkWidth = r.coin() ? 0.25 : 0.5;
-        opts.nearAlignScalar_scope = r.coin() ? 1.0 : 2.0;
+        bool aca = r.coin();
+        bool nearAlign = r.coin(2, 3);
+        unsigned reps = (unsigned) r.range(1, 3);
+        double kink = r.coin() ? 0.25 : 0.5;
+        double scope = r.coin() ? 1.0 : 2.0;
         int aspect = (int) r.range(0, 2);
-        opts.preferredAspectRatio = aspect == 0 ? AspectRatioClass::NONE : aspect == 1 ? AspectRatioClass::PORTRAIT : AspectRatioClass::LANDSCAPE;
-
+        HolaOpts opts = mkOpts(aca, nearAlign, reps, kink, scope, aspect);
+        std::vector<char> flip(g.es.size());
+        for (size_t j = 0; j < flip.size(); ++j) flip[j] = r.coin();
         std::string tag = std::string(classes[cls]) + (sizeMode == 3 ? "-free" : "");
-        vh::beginCase(k, tag.c_str());
-        printf("opts %d %d %u %s %s %d %s\n", (int) opts.useACAforLinks, (int) opts.do_near_align, opts.align_reps,
-               vh::hx(opts.nearAlignScalar_kinkWidth).c_str(), vh::hx(opts.nearAlignScalar_scope).c_str(), aspect,
-               vh::hx(opts.nodePaddingScalar).c_str());
-        printf("pos %d\nsize %d\n", posMode, sizeMode);
-        // ---- build through the public API
-        Graph G;
-        std::vector<Node_SP> nodes(n);
-        for (int i = 0; i < n; ++i) {
-            nodes[i] = Node::allocate(geo[i].cx, geo[i].cy, geo[i].w, geo[i].h);
-            G.addNode(nodes[i]);
-        }
-        std::vector<Edge_SP> edges;
-        for (auto &e : g.es) {
-            bool flip = r.coin();
-            edges.push_back(G.addEdge(nodes[flip ? e.second : e.first], nodes[flip ? e.first : e.second]));
-        }
-        for (auto &p : G.getNodeLookup()) {
-            Avoid::Point c = p.second->getCentre(); dimensions d = p.second->getDimensions();
-            printf("n0 %u %s %s %s %s\n", p.first, vh::hx(c.x).c_str(), vh::hx(c.y).c_str(), vh::hx(d.first).c_str(), vh::hx(d.second).c_str());
-        }
-        for (auto &p : G.getEdgeLookup()) {
-            auto ids = p.second->getEndIds();
-            printf("e0 %u %u %u\n", p.first, ids.first, ids.second);
-        }
-        printf("pre %d %d\n", (int) connected(g), (int) simple(g));
-        fflush(stdout);
-        // ---- the call
-        bool threw = false;
-        try {
-            doHOLA(G, opts);
-        } catch (std::exception &ex) {
-            std::string w = ex.what(); for (char &ch : w) if (ch == '\n' || ch == '\r') ch = ' ';
-            printf("threw %s\n", w.c_str()); threw = true;
-        }
-        printf("done\n");
-        if (!threw) {
-            printf("iel %s\n", vh::hx(G.getIEL()).c_str());
-            printf("extrabdry %s\n", vh::hx(G.getSepMatrix().getExtraBdryGap()).c_str());
-            for (auto &p : G.getNodeLookup()) {
-                Avoid::Point c = p.second->getCentre(); dimensions d = p.second->getDimensions();
-                printf("n1 %u %s %s %s %s\n", p.first, vh::hx(c.x).c_str(), vh::hx(c.y).c_str(), vh::hx(d.first).c_str(), vh::hx(d.second).c_str());
-            }
-            for (auto &p : G.getEdgeLookup()) {
-                auto ids = p.second->getEndIds();
-                std::vector<Avoid::Point> route = p.second->getRoute();
-                printf("e1 %u %u %u %zu", p.first, ids.first, ids.second, route.size());
-                for (auto &q : route) printf(" %s %s", vh::hx(q.x).c_str(), vh::hx(q.y).c_str());
-                printf("\n");
-            }
-            for (auto &row : sepLookup(G.getSepMatrix())) for (auto &cell : row.second) {
-                const SepPair &sp = *cell.second;
-                printf("sep %u %u %d %d %d %d %s %s\n", sp.src, sp.tgt, (int) sp.xgt, (int) sp.ygt, (int) sp.xst, (int) sp.yst,
-                       vh::hx(sp.xgap).c_str(), vh::hx(sp.ygap).c_str());
-            }
-        }
-        vh::endCase();
+        runOne(k, tag, g, geo, opts, aspect, posMode, sizeMode, flip);
     }
     return 0;
 }
